@@ -67,7 +67,11 @@ impl TypeDependencyGraph {
         let mut visited = HashSet::new();
         let mut visiting = HashSet::new();
 
-        for type_name in types {
+        // Start from the requested types in name order so that the result does not
+        // depend on the iteration order of the hash set.
+        let mut roots: Vec<&String> = types.iter().collect();
+        roots.sort();
+        for type_name in roots {
             if !visited.contains(type_name) {
                 self.topological_visit(type_name, &mut sorted, &mut visited, &mut visiting);
             }
@@ -101,6 +105,8 @@ impl TypeDependencyGraph {
 
         // Visit dependencies first
         if let Some(deps) = self.dependencies.get(type_name) {
+            let mut deps: Vec<&String> = deps.iter().collect();
+            deps.sort();
             for dep in deps {
                 self.topological_visit(dep, sorted, visited, visiting);
             }
